@@ -143,6 +143,8 @@ spec resultUn(op ast.UnaryOperator, k int) int :=
   (op == ast.UN_ABS || op == ast.UN_NEGATE) ? (k == 3 ? 1 : k) : (op == ast.UN_NOT ? 4 : k)
 
 func (*compiler).VisitUnaryExpr [C02]
+  cases e.Operator in {ast.UN_ABS, ast.UN_NEGATE, ast.UN_NOT, ast.UN_LOGIC_NOT}
+  cases tyClassOf(e.Rhs) in {1, 2, 3, 4}
   requires e != nil && e.OverloadedBy == nil && admissibleUn(e.Operator, tyClassOf(e.Rhs))
   assume wfCompiler(c)
   nopanic
@@ -169,6 +171,9 @@ spec resultBin(op ast.BinaryOperator, l int, r int) int :=
   (shift(op) ? l : 4)))
 
 func (*compiler).VisitBinaryExpr#2 [C02]
+  cases e.Operator in {ast.BIN_XOR, ast.BIN_PLUS, ast.BIN_MINUS, ast.BIN_MULT, ast.BIN_DIV, ast.BIN_MOD, ast.BIN_LOGIC_AND, ast.BIN_LOGIC_OR, ast.BIN_LOGIC_XOR, ast.BIN_LEFT_SHIFT, ast.BIN_RIGHT_SHIFT, ast.BIN_LESS, ast.BIN_GREATER, ast.BIN_LESS_EQ, ast.BIN_GREATER_EQ}
+  cases tyClassOf(e.Lhs) in {1, 2, 3, 4}
+  cases tyClassOf(e.Rhs) in {1, 2, 3, 4}
   requires e != nil && e.OverloadedBy == nil && admissibleBin(e.Operator, tyClassOf(e.Lhs), tyClassOf(e.Rhs))
   assume wfCompiler(c)
   nopanic
@@ -178,6 +183,9 @@ func (*compiler).VisitBinaryExpr#2 [C02]
 
 // --- zwischen: three numbers, any mix of Zahl/Kommazahl/Byte, gives a Wahrheitswert ---
 func (*compiler).VisitTernaryExpr [C02]
+  cases tyClassOf(e.Lhs) in {1, 2, 3}
+  cases tyClassOf(e.Mid) in {1, 2, 3}
+  cases tyClassOf(e.Rhs) in {1, 2, 3}
   requires e != nil && e.OverloadedBy == nil && e.Operator == ast.TER_BETWEEN
   requires numericCls(tyClassOf(e.Lhs)) && numericCls(tyClassOf(e.Mid)) && numericCls(tyClassOf(e.Rhs))
   assume wfCompiler(c)
